@@ -30,7 +30,7 @@ FLOORS = {"quick": {"db_members_checked": 3000, "db_members_ok": 2500, "db_membe
                     "law_literals_checked": 1200, "law_literal_ok:'§'": 150, "law_literal_ok:'§§ '": 150, "law_literal_ok:'§§'": 150,
                     "extractors_total": 6000, "minimal_forms_checked": 40000, "literal_forms_checked": 6000, "examples_checked": 700,
                     "form:full": 1200, "form:full_parallel": 300, "form:short": 500, "form:supra": 500,
-                    "form:id": 500, "form:journal": 500, "form:law": 400, "form:antecedent_full": 500, "form:document": 500, "document_written_citations": 2500, "courts_checked": 300, "courts_exhaustive": 1800,
+                    "form:id": 500, "form:journal": 500, "form:law": 400, "form:antecedent_full": 500, "form:bare_pair": 500, "form:document": 500, "document_written_citations": 2500, "courts_checked": 300, "courts_exhaustive": 1800,
                     "pin_cites_checked": 1000},
           "thorough": {"minimal_forms_checked": 250000, "form:full": 80000, "form:full_parallel": 20000,
                        "form:short": 30000, "form:supra": 30000, "form:id": 30000, "form:journal": 30000,
@@ -38,7 +38,8 @@ FLOORS = {"quick": {"db_members_checked": 3000, "db_members_ok": 2500, "db_membe
 K = {"quick": 1, "thorough": 8}
 N = {"quick": 260, "thorough": 16000}
 SHARDS = {"quick": 8, "thorough": 14}
-TERM = [". Further text follows.", "; the rest.", ".", ", and more.", ") and more.", " (noting lekfen).", "] then.", ""]
+TERM = [". Further text follows.", "; the rest.", ".", ", and more.", ") and more.", " (noting lekfen).", "] then.",
+        " (overruled in part in 1995).", " (citing Lekfen).", ""]
 
 
 def plan(tier, seed):
@@ -52,7 +53,25 @@ def classify(v):
     if pr and ("(" in pr or ";" in pr) and v.get("monitor") in (
             "C01.full_year", "C01.full_court", "C01.full_parenthetical", "C01.full_span_end"):
         return "parallel-reporter-with-parenthesis"
+    if v.get("monitor") in ("C01.short_parenthetical", "C01.supra_parenthetical", "C01.id_parenthetical",
+                            "C01.journal_parenthetical", "C01.law_parenthetical") \
+            and v.get("observed") is None and isinstance(v.get("expected"), str) and has_special_token(v["expected"]):
+        return "parenthetical-with-special-token-after-string-scanned-forms"
+    if v.get("monitor") in ("C01.bare_pair_year", "C01.bare_pair_pin_cite") and c.get("form") == "bare_pair" \
+            and c.get("stop_word_before_first_and_none_between") and (v.get("observed") or [None])[0] == 1:
+        return "string-cite-after-closed-citation-taken-as-parallel"
     return None
+
+
+def has_special_token(par):
+    """Does the written parenthetical contain a special token (stop word, citation, section sign, ...)? The
+    text scanned after short, supra, id., law and journal citations ends at the next special token."""
+    from eyecite.tokenizers import default_tokenizer
+    try:
+        words, _ = default_tokenizer.tokenize("(" + par + ")")
+    except Exception:
+        return False
+    return any(not isinstance(w, str) for w in words)
 
 
 # ------------------------------------------------------------------ helpers
@@ -786,7 +805,7 @@ def check_short(rng, rec):
     st = len(s)
     s += f"{vol} {rep}{c2} at {pin}"
     en = len(s)
-    term = rng.choice(TERM[:7])
+    term = rng.choice(TERM[:9])
     par = term[2:-2] if term.startswith(" (") else None
     s += term
     case = dict(text=s, form="short")
@@ -827,7 +846,7 @@ def check_supra(rng, rec):
     comma = not pin and rng.random() < 0.5
     if comma:
         s += ","
-    term = rng.choice(TERM[:7]) if pin else rng.choice([" Further text.", " and further."] if comma else [". Further text.", " and further.", "."])
+    term = rng.choice(TERM[:9]) if pin else rng.choice([" Further text.", " and further."] if comma else [". Further text.", " and further.", "."])
     par = term[2:-2] if term.startswith(" (") else None
     s += term
     case = dict(text=s, form="supra")
@@ -867,7 +886,7 @@ def check_id(rng, rec):
     if pin:
         s += f" at {pin}"
     en = len(s)
-    term = rng.choice(TERM[:7]) if pin else rng.choice([" Further text.", " (noting lekfen)."])
+    term = rng.choice(TERM[:9]) if pin else rng.choice([" Further text.", " (noting lekfen)."])
     par = term[2:-2] if term.startswith(" (") else None
     s += term
     case = dict(text=s, form="id")
@@ -891,7 +910,7 @@ def check_journal(rng, rec):
     vol, p = rng.randint(1, 150), rng.randint(1, 2000)
     pin = pin_simple(rng, p) if rng.random() < 0.5 else None
     year = rng.randint(1900, 2020) if rng.random() < 0.7 else None
-    par = "discussing " + gen.word(rng).lower() if (year and rng.random() < 0.4) else None
+    par = rng.choice(["discussing " + gen.word(rng).lower(), gen.paren(rng)]) if (year and rng.random() < 0.4) else None
     lead = rng.choice(["", "See ", "Cf. Note, "])
     s = lead
     st = len(s)
@@ -945,7 +964,7 @@ def check_law(rng, rec):
     gt = rx.fullmatch(core).groupdict()
     pub = rng.choice([None, "West", "Lexis Supp.", "Supp."])
     year = rng.randint(1900, 2020) if (pub or rng.random() < 0.5) else None
-    par = "repealed" if rng.random() < 0.3 else None
+    par = rng.choice(["repealed", "repealed in part in 1995", gen.paren(rng)]) if rng.random() < 0.3 else None
     lead = rng.choice(["", "See ", "under "])
     s = lead
     st = len(s)
@@ -987,6 +1006,65 @@ def check_law(rng, rec):
         return fail(rec, "law_full_span", case, observed=fs, expected=(st, ce))
 
 
+def check_bare_pair(rng, rec):
+    """Two adjacent full case citations written without party names (string cites): each keeps its own
+    year, court and pin cite; neither is the other's parallel citation."""
+    from eyecite.models import FullCaseCitation
+    reps = [rng.choice(gen.DB.std) for _ in range(2)]
+    vols = [rng.randint(1, 999) for _ in range(2)]
+    pages = [rng.randint(1, 1500) for _ in range(2)]
+    years = [rng.randint(1700, gen.YEARNOW), rng.choice([None, rng.randint(1700, gen.YEARNOW)])]
+    if years[1] == years[0]:
+        years[1] = None
+    pins = [gen.pinshape(rng, pages[k]) if rng.random() < 0.3 else None for k in range(2)]
+    s = rng.choice(["See ", "Compare ", "", "See, e.g., ", "Accord "])
+    spans = []
+    for k in range(2):
+        st = len(s)
+        s += f"{vols[k]} {reps[k]} {pages[k]}"
+        spans.append((st, len(s)))
+        if pins[k]:
+            s += ", " + pins[k]
+        if years[k]:
+            s += f" ({years[k]})"
+        if k == 0:
+            s += rng.choice(["; ", "; see also ", ". See also ", " and "])
+    s += rng.choice([".", ". Further text.", "; the rest."])
+    # does a backward scan from the second citation reach a stop word in front of the first one without
+    # meeting ';' or a stop word in between? (then the two get the same full-span start)
+    shared_lead = bool(re.match(r"(?i)see\b", s)) and not re.search(r";|\bsee\b|\bSee\b", s[spans[0][1]:spans[1][0]])
+    case = dict(text=s, form="bare_pair", stop_word_before_first_and_none_between=shared_lead)
+    rec.count("form:bare_pair")
+    cs = extract(s, rec, case)
+    if cs is None:
+        return
+    rec.ev()
+    rec.nontrivial(s)
+    cs = [c for c in cs if isinstance(c, FullCaseCitation)]
+    if [c.span() for c in cs] != spans:
+        if any(other_structures_str(f"{vols[k]} {reps[k]} {pages[k]}", str(vols[k]), reps[k], str(pages[k])) for k in range(2)):
+            rec.count("second_pattern_tie")
+            return
+        return fail(rec, "bare_pair_spans", case, observed=[c.span() for c in cs], expected=spans)
+    for k, c in enumerate(cs):
+        if c.metadata.year != (str(years[k]) if years[k] else None):
+            return fail(rec, "bare_pair_year", case, observed=(k, c.metadata.year, c.year), expected=years[k])
+        if c.metadata.pin_cite != pins[k]:
+            return fail(rec, "bare_pair_pin_cite", case, observed=(k, c.metadata.pin_cite), expected=pins[k])
+
+
+def other_structures_str(core, vol, rep, page):
+    for o in gen.DB.cit_extractors:
+        if o.strings and not any(x in core for x in o.strings):
+            continue
+        rx = inner_of(o)[1]
+        m = rx.fullmatch(core) if rx is not None else None
+        if m and ((m.groupdict().get("volume"), m.groupdict().get("reporter"), m.groupdict().get("page")) != (vol, rep, page)
+                  or set(m.groupdict()) != {"volume", "reporter", "page"} or o.extra["short"]):
+            return True
+    return False
+
+
 def probe_known(rec):
     """Deterministic witness of the open known finding (printed as KNOWN-FINDING while it is present)."""
     from eyecite.models import FullCaseCitation
@@ -995,6 +1073,17 @@ def probe_known(rec):
     cs = extract(s, rec, case)
     if cs and isinstance(cs[0], FullCaseCitation) and cs[0].metadata.year != "1922":
         rec.violation("C01.full_year", case, observed=(cs[0].metadata.year, cs[0].year), expected=1922)
+    s = "See 1 U.S. 340 (1926) and 2 F.2d 327 (1967)."
+    case = dict(text=s, form="bare_pair", stop_word_before_first_and_none_between=True)
+    cs = [c for c in (extract(s, rec, case) or []) if isinstance(c, FullCaseCitation)]
+    if len(cs) == 2 and cs[1].metadata.year != "1967":
+        rec.violation("C01.bare_pair_year", case, observed=(1, cs[1].metadata.year, cs[1].year), expected=1967)
+    from eyecite.models import IdCitation
+    s = "Foo v. Bar, 1 U.S. 1 (1999). Id. at 5 (citing Smith)."
+    case = dict(text=s, form="id")
+    cs = [c for c in (extract(s, rec, case) or []) if isinstance(c, IdCitation)]
+    if cs and cs[0].metadata.parenthetical != "citing Smith":
+        rec.violation("C01.id_parenthetical", case, observed=cs[0].metadata.parenthetical, expected="citing Smith")
 
 
 def run_shard(spec, rec):
@@ -1012,7 +1101,7 @@ def run_shard(spec, rec):
     run_courts(spec, rec, rng)
     for k in range(spec["n"]):
         forms = ["check_full"] + (["check_short", "check_supra", "check_id", "check_journal", "check_law",
-                                   "check_antecedent_full", "check_scenario_doc"] if k % 2 == 0 else [])
+                                   "check_antecedent_full", "check_scenario_doc", "check_bare_pair"] if k % 2 == 0 else [])
         for fn in forms:
             tag = f"{spec['seed']}-{k}-{fn}"
             rec.c01_tag = (fn, tag)          # lets --replay regenerate exactly this case
